@@ -423,6 +423,9 @@ SCENARIOS = {
     "pending": dict(inst=INST, horizon=260, calls=[(60, "power"), (100, "toggle"), (101, "zone")], faults=[(90, "refuse"), (95, "eof"), (150, "accept")]),
     "pending_timeout": dict(inst=INST, horizon=260, calls=[(60, "power"), (100, "toggle"), (101, "zone")], faults=[(90, "refuse"), (95, "timeout"), (150, "accept")]),
     "lost_unreach": dict(inst=INST, horizon=200, calls=[(70, "zone")], faults=[(64, "unreach")]),
+    # the send queue is filled to its capacity during an outage that spans the AirTouch 4 group-status poll / a heartbeat instant
+    "pending10": dict(inst=INST, horizon=2700, faults=[(2340, "refuse"), (2345, "eof")],
+                      calls=[(2350 + 3 * i, ["power", "zone", "toggle"][i % 3]) for i in range(10)]),
     "heartbeat": dict(inst=INST, horizon=2700),
     "dead_link": dict(inst=INST, horizon=5600, silent_from=8),
 }
